@@ -27,7 +27,7 @@ CFG = {
     "rule": "valid integer-grid polygons (rectangle/star/comb/diamond/concave-star shells, 0-4 holes of 5 shapes placed in disjoint cells, "
             "validated exactly) under per-ring reversal x rotation {0,1,mid,last} x closed/unclosed orbits (full orbit for <=2 rings, systematic+sampled above), "
             "their images under random invertible affine maps to arbitrary doubles, multipolygons of 1-4 disjoint members (+ island in a hole), "
-            "every base also at dyadic scales 2^-14..2^-30 and 2^+20; receivers laid out as separate allocations, as windows of one packed buffer, or as prefix re-slices (receiver compared bit for bit before/after every call); a fixed corpus of degenerate/invalid shapes; line strings with query points on vertices, on segments, projecting onto endpoints, beyond ends; "
+            "every base also at dyadic scales 2^-14..2^-30 and 2^+20, areas at 2^±400/±500, centroids at 2^±300 (and four corpus shapes at 2^±400/±600: known finding); ring order permuted (hole first) judged by the Spec; line strings, query points and buffers also at 2^±511..2^±900; receivers laid out as separate allocations, as windows of one packed buffer, or as prefix re-slices (receiver compared bit for bit before/after every call); a fixed corpus of degenerate/invalid shapes; line strings with query points on vertices, on segments, projecting onto endpoints, beyond ends; "
             "buffers with 3..720 segments and invalid arguments. distinct = distinct input line; non-trivial = verdict class not '*-skipped'",
     "timeout": {"quick": 900, "thorough": 3000},
 }
